@@ -441,3 +441,18 @@ Qed.
 Lemma route_text_oracle a segs : forallb seg_ok segs = true ->
   str_eqb (init_route (colon_mode a) (render_ep segs)) (clean_path (render_route (colon_mode a) segs)) = true.
 Proof. intros H. apply str_eqb_eq, route_text, H. Qed.
+
+(* the weaker oracle used when a client query is forwarded follows from the exact one *)
+Lemma spec_route_implies_q segs be vals o :
+  spec_route_b segs be vals o = true -> spec_routeq_b segs be vals o = true.
+Proof.
+  destruct o as [|p|st|]; cbn [spec_route_b spec_routeq_b]; try (intros H; exact H).
+  intros H. apply andb_true_iff in H. destruct H as [H1 H2]. rewrite H1. cbn [andb].
+  apply orb_true_iff in H2. destruct H2 as [H2|H2]; [rewrite H2; reflexivity|].
+  apply andb_true_iff in H2. destruct H2 as [Ha Hb]. rewrite Hb, andb_true_r.
+  unfold extends_b. rewrite Ha. apply orb_true_r.
+Qed.
+
+Lemma routeq_meets_oracle a segs be vals :
+  wf_route segs be vals = true -> spec_routeq_b segs be vals (serve a segs be vals) = true.
+Proof. intros H. apply spec_route_implies_q, route_meets_oracle, H. Qed.
